@@ -115,4 +115,19 @@ func vrtHarness_C15_forwardOpts() {
 		vrtCover("options forwarded to the client", len(want) > 0)
 		vrtAssert("the client's reply OPT carries the upstream's options of the forwarded code and no other upstream option", same)
 	}
+	// a second, unrelated query through the same plugin: nothing of the first exchange is left
+	// in its upstream query or in its reply
+	q2 := new(dns.Msg)
+	q2.Id = vrtU16()
+	q2.Question = []dns.Question{{Name: "b.", Qtype: dns.TypeA, Qclass: dns.ClassINET}}
+	q2.Extra = append(q2.Extra, &dns.OPT{Hdr: dns.RR_Header{Name: ".", Rrtype: dns.TypeOPT, Class: 1232}})
+	qCtx2 := query_context.NewContext(q2)
+	r2 := new(dns.Msg)
+	r2.SetReply(q2)
+	r2.Extra = append(r2.Extra, &dns.OPT{Hdr: dns.RR_Header{Name: ".", Rrtype: dns.TypeOPT, Class: 4096}})
+	up2 := &vrtUp{reply: r2}
+	err = f.Exec(context.Background(), qCtx2, sequence.NewChainWalker([]*sequence.ChainNode{{E: up2}}, nil))
+	vrtCover("second query", true)
+	vrtAssert("a later query without options carries exactly one fresh, empty OPT upstream", vrtAnd(err == nil, up2.sawOPTs == 1, len(up2.sawCodes) == 0))
+	vrtAssert("and its reply OPT carries no option", vrtAnd(qCtx2.RespOpt() != nil, qCtx2.RespOpt() != nil && len(qCtx2.RespOpt().Option) == 0))
 }
